@@ -1389,6 +1389,207 @@ func gatedDisconnectDuringTimeoutHandling() []int64 {
 	return []int64{0, b2i(ok), b2i(stopped)}
 }
 
+// scenario 30 (C16, C01): Stop while the callback goroutine is busy inside an application callback; the endpoint is
+// started again and a request is sent before that callback returns.  The new session's request must be concluded at
+// its own callback: the previous session's goroutine must not take the new session's callbacks with it when it leaves.
+func gatedRestartWhileCallbackBusy() []int64 {
+	installIDGen()
+	fake := fakews.NewClient()
+	disp := ocppj.NewDefaultClientDispatcher(ocppj.NewFIFOClientQueue(0))
+	disp.SetTimeout(time.Hour)
+	cp := ocpp16.NewChargePoint("cp1", ocppj.NewClient("cp1", fake, disp, nil, core16.Profile), fake)
+	if err := cp.Start("ws://fake"); err != nil {
+		return []int64{-2}
+	}
+	entered := make(chan struct{}, 2)
+	release := make(chan struct{})
+	setNextID("701")
+	_ = cp.SendRequestAsync(core16.NewDataTransferRequest("v1"), func(r ocpp.Response, e error) {
+		entered <- struct{}{}
+		<-release
+	})
+	if !waitFor(3*time.Second, clientWrote(fake, 701)) {
+		return []int64{-8}
+	}
+	_ = fake.Inject([]byte(`[3,"701",{"status":"Accepted","data":"r701"}]`))
+	select {
+	case <-entered: // the callback goroutine is held inside callback 701
+	case <-time.After(2 * time.Second):
+		return []int64{-4}
+	}
+	if !within(3*time.Second, cp.Stop) {
+		close(release)
+		return []int64{-8, 1}
+	}
+	fake.TakeWritten()
+	if err := cp.Start("ws://fake"); err != nil {
+		close(release)
+		return []int64{-6}
+	}
+	var mu sync.Mutex
+	got := ""
+	calls := 0
+	setNextID("702")
+	_ = cp.SendRequestAsync(core16.NewDataTransferRequest("v2"), func(r ocpp.Response, e error) {
+		mu.Lock()
+		calls++
+		if dt, ok := r.(*core16.DataTransferConfirmation); ok && dt != nil {
+			got = fmt.Sprint(dt.Data)
+		}
+		mu.Unlock()
+	})
+	if !waitFor(3*time.Second, clientWrote(fake, 702)) {
+		close(release)
+		return []int64{-8, 2}
+	}
+	close(release) // the first session's callback returns only now
+	time.Sleep(30 * time.Millisecond)
+	within(time.Second, func() { _ = fake.Inject([]byte(`[3,"702",{"status":"Accepted","data":"r702"}]`)) })
+	waitFor(2*time.Second, func() bool { mu.Lock(); defer mu.Unlock(); return calls > 0 })
+	time.Sleep(20 * time.Millisecond)
+	stopped := within(3*time.Second, cp.Stop)
+	mu.Lock()
+	defer mu.Unlock()
+	if calls == 1 && got == "r702" && stopped {
+		return []int64{1, 0}
+	}
+	return []int64{0, int64(calls), b2i(got == "r702"), b2i(stopped)}
+}
+
+// scenario 31 (C16, C01): Stop while the callback goroutine is busy and a further conclusion is already waiting for
+// it; once Stop has returned no callback may fire any more, 16 tries.
+func gatedNoCallbackAfterStop() []int64 {
+	installIDGen()
+	late := int64(0)
+	for try := 0; try < 16; try++ {
+		fake := fakews.NewClient()
+		disp := ocppj.NewDefaultClientDispatcher(ocppj.NewFIFOClientQueue(0))
+		disp.SetTimeout(time.Hour)
+		cp := ocpp16.NewChargePoint("cp1", ocppj.NewClient("cp1", fake, disp, nil, core16.Profile), fake)
+		if err := cp.Start("ws://fake"); err != nil {
+			return []int64{-2}
+		}
+		entered := make(chan struct{}, 2)
+		release := make(chan struct{})
+		var stoppedFlag, lateCalls int32
+		setNextID("801")
+		_ = cp.SendRequestAsync(core16.NewDataTransferRequest("v1"), func(r ocpp.Response, e error) {
+			entered <- struct{}{}
+			<-release
+		})
+		if !waitFor(3*time.Second, clientWrote(fake, 801)) {
+			return []int64{-8}
+		}
+		setNextID("802")
+		_ = cp.SendRequestAsync(core16.NewDataTransferRequest("v2"), func(r ocpp.Response, e error) {
+			if atomic.LoadInt32(&stoppedFlag) == 1 {
+				atomic.AddInt32(&lateCalls, 1)
+			}
+		})
+		time.Sleep(2 * time.Millisecond)
+		_ = fake.Inject([]byte(`[3,"801",{"status":"Accepted","data":"r801"}]`))
+		select {
+		case <-entered:
+		case <-time.After(2 * time.Second):
+			return []int64{-4}
+		}
+		if !waitFor(3*time.Second, clientWrote(fake, 802)) {
+			close(release)
+			return []int64{-8, 1}
+		}
+		// the reply to 802 is concluded by the OCPP-J layer and waits for the (busy) callback goroutine
+		if !within(2*time.Second, func() { _ = fake.Inject([]byte(`[3,"802",{"status":"Accepted","data":"r802"}]`)) }) {
+			close(release)
+			return []int64{-5}
+		}
+		time.Sleep(2 * time.Millisecond)
+		if !within(3*time.Second, cp.Stop) {
+			close(release)
+			return []int64{-8, 2}
+		}
+		atomic.StoreInt32(&stoppedFlag, 1)
+		close(release)
+		time.Sleep(25 * time.Millisecond)
+		if atomic.LoadInt32(&lateCalls) > 0 {
+			late++
+		}
+	}
+	if late == 0 {
+		return []int64{1, 0}
+	}
+	return []int64{0, late}
+}
+
+// scenario 32 (C07): the requests of 14 clients time out while the pump is held inside the first cancel callback, and
+// one of the clients disconnects meanwhile: more expiries are waiting than the pump's timer channel holds.  Every
+// request is cancelled, the disconnection is processed, and the dispatcher serves a request sent afterwards.
+func gatedManyTimeoutsPumpBusy() []int64 {
+	installIDGen()
+	fake := fakews.NewServer()
+	disp := ocppj.NewDefaultServerDispatcher(ocppj.NewFIFOQueueMap(0))
+	disp.SetTimeout(120 * time.Millisecond)
+	srv := ocppj.NewServer(fake, disp, nil, core16.Profile)
+	srv.SetResponseHandler(func(c ws_Channel, r ocpp.Response, id string) {})
+	srv.SetErrorHandler(func(c ws_Channel, e *ocpp.Error, d interface{}) {})
+	srv.SetRequestHandler(func(c ws_Channel, r ocpp.Request, id, action string) {})
+	srv.SetDisconnectedClientHandler(func(c ws_Channel) {})
+	var mu sync.Mutex
+	cancelled := 0
+	entered := make(chan struct{}, 1)
+	release := make(chan struct{})
+	var once sync.Once
+	srv.SetCanceledRequestHandler(func(clientID string, requestID string, r ocpp.Request, e *ocpp.Error) {
+		once.Do(func() { entered <- struct{}{}; <-release })
+		mu.Lock()
+		cancelled++
+		mu.Unlock()
+	})
+	go srv.Start(0, "/{ws}")
+	if !waitFor(2*time.Second, disp.IsRunning) {
+		return []int64{-2}
+	}
+	const n = 14
+	gate := make(chan struct{})
+	var wonce sync.Once
+	fake.OnWrite = func(to string, data []byte) { wonce.Do(func() { <-gate }) }
+	for i := 0; i < n; i++ {
+		fake.Connect(fmt.Sprintf("c%d", i))
+	}
+	for i := 0; i < n; i++ {
+		if err := srv.SendRequest(fmt.Sprintf("c%d", i), core16.NewDataTransferRequest("v")); err != nil {
+			close(gate)
+			return []int64{-3}
+		}
+	}
+	close(gate) // all 14 are written, and expire, together
+	select {
+	case <-entered: // the pump sits in the first cancel callback
+	case <-time.After(3 * time.Second):
+		return []int64{-4}
+	}
+	time.Sleep(250 * time.Millisecond) // the other 13 expiries are reported meanwhile
+	disc := make(chan bool, 1)
+	go func() { disc <- within(4*time.Second, func() { fake.Disconnect("c13") }) }()
+	time.Sleep(30 * time.Millisecond)
+	close(release)
+	disconnected := <-disc
+	ok := waitFor(3*time.Second, func() bool { mu.Lock(); defer mu.Unlock(); return cancelled >= n-1 })
+	mu.Lock()
+	c := cancelled
+	mu.Unlock()
+	fake.TakeWritten()
+	served := int64(0)
+	if within(2*time.Second, func() { _ = srv.SendRequest("c0", core16.NewDataTransferRequest("after")) }) &&
+		waitFor(2*time.Second, func() bool { return fake.CountWritten(func(string, []byte) bool { return true }) >= 1 }) {
+		served = 1
+	}
+	stopped := within(3*time.Second, srv.Stop)
+	if ok && served == 1 && disconnected && stopped {
+		return []int64{1, int64(c)}
+	}
+	return []int64{0, int64(c), served, b2i(disconnected), b2i(stopped)}
+}
+
 func gatedEval(in []int64) []int64 {
 	switch in[0] {
 	case 7:
@@ -1431,6 +1632,12 @@ func gatedEval(in []int64) []int64 {
 		return gatedTwoCompletionsWhilePumpBusy()
 	case 29:
 		return gatedDisconnectDuringTimeoutHandling()
+	case 30:
+		return gatedRestartWhileCallbackBusy()
+	case 31:
+		return gatedNoCallbackAfterStop()
+	case 32:
+		return gatedManyTimeoutsPumpBusy()
 	}
 	return []int64{-1}
 }
